@@ -34,7 +34,53 @@ SIGNAL_NAMES = ("CancelTask", "CancelScope", "GeneratorExit")
 SUPPRESSED = ("TaskCancelled", "TaskClosed", "VolatileTaskClosed")
 
 
+def _closed_at_its_deadline(rng):
+    """Directed shape: an until-block is closed from above in the very time step of its own
+    deadline, before that deadline's trigger has had its turn (the ancestor's wake-up for that date
+    was queued first): the block must still take its children with it. The enclosing scope ends
+    at that date because its body fails, because it is an until-block for the same date itself,
+    or because its owner is cancelled then."""
+    date = rng.choice([0.5, 1, 2])
+    inner_until = rng.choice([{"k": "time", "op": "==", "t": date},
+                              {"k": "time", "op": ">=", "t": date},
+                              {"k": "delay", "d": date},
+                              {"k": "time", "op": "==", "t": date}])
+    ticks = []
+    for _ in range(rng.randint(3, 6)):
+        ticks += [{"op": "sleep", "d": rng.choice([0.25, 0.5])}, {"op": "now", "tag": "tick"}]
+    grand = [{"name": "g1", "ops": ticks}]
+    if rng.random() < 0.5:
+        grand.append({"name": "g2", "volatile": True, "ops": ticks[:4] + [{"op": "eternity"}]})
+    inner = {"op": "scope", "label": "S2", "until": inner_until, "children": grand,
+             "body": [rng.choice([{"op": "eternity"}, {"op": "sleep", "d": 64}])]}
+    child_ops = [inner, {"op": "now", "tag": "after-inner"}]
+    if rng.random() < 0.3:
+        child_ops.insert(0, {"op": "postpone", "k": rng.randint(1, 2)})
+    kids = [{"name": "c1", "ops": child_ops}]
+    if rng.random() < 0.4:
+        kids.append({"name": "c2", "ops": [{"op": "sleep", "d": 64}]})
+    how = rng.choice(["raise", "until", "cancel"])
+    outer = {"op": "scope", "label": "S1", "children": kids,
+             "body": [{"op": "sleep", "d": date}, {"op": "raise", "type": "E"}]}
+    actors = []
+    if how == "until":
+        outer["until"] = {"k": "time", "op": rng.choice([">=", "=="]), "t": date}
+        outer["body"] = [{"op": "sleep", "d": 64}]
+    elif how == "cancel":
+        outer["body"] = [{"op": "sleep", "d": 64}]
+        actors.append({"name": "killer", "ops": [{"op": "sleep", "d": date},
+                                                 {"op": "cancel", "task": "own", "token": ["k"]}]})
+    own = {"name": "own", "ops": [{"op": "try", "all": True, "body": [outer]},
+                                  {"op": "now", "tag": "after"}, {"op": "sleep", "d": 4},
+                                  {"op": "now", "tag": "final"}]}
+    actors.append(own)          # (the killer sleeps first: its wake-up precedes the deadline's)
+    return {"property": ID, "scenario": {"resources": {}, "actors": actors}, "plan": [],
+            "config": {"waitq": rng.choice(["heap", "sd"])}, "victims": ["c1"]}
+
+
 def generate(rng, tier):
+    if rng.random() < 0.06:
+        return _closed_at_its_deadline(rng)
     gen = Gen(rng, fail_rate=0.08, priv_rate=0.1, until_rate=0.3, max_depth=2)
     scenario, label = gen.program()
     return {"property": ID, "scenario": scenario, "plan": [],
